@@ -510,6 +510,7 @@ def run(chk):
     _gensymorder_rule(chk, prog)
     _cmplen_rule(chk, prog)
     _elemhash_rule(chk, prog)
+    _cmpoperands_rule(chk, prog)
 
 
 def _hashlast_rule(chk, prog):
@@ -827,3 +828,54 @@ def _elemhash_rule(chk, prog):
                               "normalisation of janet_hash (-0.0 onto 0.0), containers that are equal by = get different hashes - (= [0] [-0]) "
                               "turns false and a table keyed by one is not found through the other" % (name, a.text()[:40]))
     chk.floor(rule, 3, n)
+
+
+def _cmpoperands_rule(chk, prog):
+    """(< x y) is janet_compare(x, y) < 0.  The interpreter's comparison handlers have a fast path for two numbers
+    and hand everything else to janet_compare; the operands must go there in the order the instruction names them -
+    first operand (field B) first.  With the operands swapped the slow path answers the mirrored question: (< nil 5)
+    becomes true while (cmp nil 5) is 1 and (<= nil 5) stays false."""
+    from jv.vm import VMHandlers
+    rule = "C03-CMPOPERANDS"
+    chk.rule(rule, "every janet_compare call of the interpreter's comparison handlers passes the instruction's first operand (B) first and its second operand (C or the immediate) second")
+    full = Program.load("default", units=["vm.c"])
+    vm = VMHandlers(full)
+    fn = vm.fn
+
+    def origin(e):
+        """'B' / 'C' / 'imm' / None for an argument expression"""
+        e = strip_casts(e)
+        names = set()
+        for y in e.walk():
+            names.update(m.rstrip("@") for m in y.macro_names())
+        if is_ref(e):
+            for d in fn.nodes:
+                if d.k == "vardecl" and d.name == e.name and d.kids and vm.handler_of(d) == vm.handler_of(e):
+                    for y in d.kids[0].walk():
+                        names.update(m.rstrip("@") for m in y.macro_names())
+        if "CS" in names:
+            return "imm"
+        if "B" in names and "C" not in names:
+            return "B"
+        if "C" in names and "B" not in names:
+            return "C"
+        return None
+    n = 0
+    for c in fn.nodes:
+        if c.k != "call" or c.callee != "janet_compare" or len(c.args) != 2:
+            continue
+        h = (vm.handler_of(c) or "").replace("label_", "")
+        if not any(t in h for t in ("LESS", "GREATER")):
+            continue
+        a, b = origin(c.args[0]), origin(c.args[1])
+        if a is None or b is None:
+            continue
+        n += 1
+        chk.instance(rule)
+        if a == "B" and b in ("C", "imm"):
+            chk.ok(rule, "%s: janet_compare(B, %s)" % (h, b))
+        else:
+            chk.violation(rule, "vm.c", "run_vm", "%s:%s,%s" % (h, a, b), c.loc,
+                          "%s passes its operands to janet_compare as (%s, %s): the slow path (an operand that is not a number) answers the "
+                          "mirrored comparison, so < and > disagree with cmp, with <= / >= and with the same comparison against a variable" % (h, a, b))
+    chk.floor(rule, 6, n)
